@@ -94,6 +94,32 @@ func check(c Case) error {
 	if h != want {
 		return vk.Errf("Hash(%q, %s, circular=%v, doubleStranded=%v) = %s; v1 form of canonical representative %q is %s", s, c.Type, c.Circ, c.DS, h, canon, want)
 	}
+	// the digest is of the UPPER-CASED canonical representative: the same letters in mixed case
+	// (lower case at even, at odd, and at every third position) must give the same value
+	if len(s) <= 20000 {
+		for variant := 0; variant < 3; variant++ {
+			b := []byte(s)
+			for i := range b {
+				if (variant < 2 && i%2 == variant) || (variant == 2 && i%3 == 0) {
+					if b[i] >= 'A' && b[i] <= 'Z' {
+						b[i] += 'a' - 'A'
+					} else if b[i] >= 'a' && b[i] <= 'z' {
+						b[i] -= 'a' - 'A'
+					}
+				}
+			}
+			if string(b) == s {
+				continue
+			}
+			hv, err := seqhash.Hash(string(b), c.Type, c.Circ, c.DS)
+			if err != nil {
+				return vk.Errf("Hash(%q, %s, circular=%v, doubleStranded=%v) rejected a valid input: %v", string(b), c.Type, c.Circ, c.DS, err)
+			}
+			if hv != want {
+				return vk.Errf("Hash(%q, %s, circular=%v, doubleStranded=%v) = %s; the same letters %q give %s (the v1 form of the upper-cased canonical representative %q)", string(b), c.Type, c.Circ, c.DS, hv, s, want, canon)
+			}
+		}
+	}
 	if c.Other != nil {
 		o := c.Other.String()
 		ho, err := seqhash.Hash(o, c.Type, c.Circ, c.DS)
